@@ -556,6 +556,10 @@ func genFanIn(r *vc.Rand, index int) *Scenario {
 	for i := range deps {
 		deps[i] = i
 	}
+	if r.Chance(1, 2) {
+		// one of the last dependencies fails: the dependent must not run at all
+		sc.Jobs[m-1-r.Intn(100)].Beh = BehErr
+	}
 	sc.Jobs = append(sc.Jobs, JobSpec{Deps: deps})
 	sc.GateOpen = "enqueued" // the gate opens once everything has been enqueued
 	return sc
